@@ -1,43 +1,57 @@
 ---- MODULE Conf_Chunked ----
 (* C24 conformance: every case is one input of the real TeChunkedParser with all the delivery schedules (runs) it was fed
-   with.  Case = [in, relaxed, ns, runs, ub]; ns = the distinct numbers of delivered bytes that occur in the runs;
-   run = [caps (the output capacities that gave this result, 0 = unlimited), out, steps]; step = [n, k (ns[k] = n), oc, used, outn]: after n bytes were delivered the parser had said oc,
-   consumed `used` input bytes and produced the first outn bytes of run.out. *)
-EXTENDS Chunked, ConfLib
+   with.  Case = [in, relaxed, ns, runs, ub]; ns = the ascending distinct numbers of delivered bytes that occur in the runs;
+   run = [caps (the output capacities that gave this result, 0 = unlimited), out, steps];
+   step = <<n, oc, used, outn, k>> (ns[k] = n): after n bytes were delivered the parser had said oc, consumed `used` input
+   bytes and produced the first outn bytes of run.out.
+
+   The reference results for the prefixes ns[1] < ns[2] < ... are computed by continuing the reference decoder from its
+   state at the previous prefix; that this equals decoding each prefix from scratch is the segmentation law model-checked
+   in MC_Chunked (StrLaws / EncLaws). *)
+EXTENDS Chunked, ConfLib, TLC
 Case == Cases[i]
 
-RECURSIVE RefSeq(_, _, _, _)
-RefSeq(in, ns, j, relaxed) ==
+RECURSIVE RefSeq(_, _, _, _, _, _)
+RefSeq(in, ns, j, relaxed, ss, tt) ==
   IF j > Len(ns) THEN <<>>
-  ELSE <<[s |-> Dec(in, ns[j], Strict), t |-> Dec(in, ns[j], Tolerant(relaxed))]>> \o RefSeq(in, ns, j + 1, relaxed)
+  ELSE LET s2 == Round(in, ns[j], ss, Unlimited, Strict)
+           t2 == Round(in, ns[j], tt, Unlimited, Tolerant(relaxed)) IN
+       <<[s |-> Result(s2), t |-> Result(t2)]>> \o RefSeq(in, ns, j + 1, relaxed, s2, t2)
+
+N(st) == st[1]
+Oc(st) == st[2]
+Used(st) == st[3]
+OutN(st) == st[4]
+K(st) == st[5]
 
 \* P-layer: the statement of C24
 StepP(run, st, ref) ==
-  LET out == SubSeq(run.out, 1, st.outn)
-      asTolerant == \/ ref.t.oc = "Done" /\ st.oc = "Done" /\ out = ref.t.out /\ st.used = ref.t.used
-                    \/ ref.t.oc = "NeedMore" /\ st.oc = "NeedMore" /\ IsPrefix(out, ref.t.out)
-      refused == st.oc = "Reject" /\ IsPrefix(out, ref.t.out) IN
-  CASE ref.s.oc = "Done" -> st.oc = "Done" /\ out = ref.s.out /\ st.used = ref.s.used
-    [] ref.s.oc = "NeedMore" -> st.oc = "NeedMore" /\ IsPrefix(out, ref.s.out)
+  LET out == SubSeq(run.out, 1, OutN(st))
+      asTolerant == \/ ref.t.oc = "Done" /\ Oc(st) = "Done" /\ out = ref.t.out /\ Used(st) = ref.t.used
+                    \/ ref.t.oc = "NeedMore" /\ Oc(st) = "NeedMore" /\ IsPrefix(out, ref.t.out)
+      refused == Oc(st) = "Reject" /\ IsPrefix(out, ref.t.out) IN
+  CASE ref.s.oc = "Done" -> Oc(st) = "Done" /\ out = ref.s.out /\ Used(st) = ref.s.used
+    [] ref.s.oc = "NeedMore" -> Oc(st) = "NeedMore" /\ IsPrefix(out, ref.s.out)
     [] OTHER -> IF ref.t.oc = "Reject"
-                THEN refused \/ (ref.t.soft /\ st.oc = "NeedMore" /\ IsPrefix(out, ref.t.out))
+                THEN refused \/ (ref.t.soft /\ Oc(st) = "NeedMore" /\ IsPrefix(out, ref.t.out))
                 ELSE refused \/ asTolerant
 
 \* I-layer: the decoder as it is today (Tolerant grammar, everything available is moved, early refusal of oversized sizes)
 StepI(run, st, ref) ==
-  LET out == SubSeq(run.out, 1, st.outn) IN
-  /\ st.oc = ref.t.oc
+  LET out == SubSeq(run.out, 1, OutN(st)) IN
+  /\ Oc(st) = ref.t.oc
   /\ out = ref.t.out
-  /\ st.oc = "Done" => st.used = ref.t.used
+  /\ Oc(st) = "Done" => Used(st) = ref.t.used
 
-AllSteps(k, Q(_, _, _)) ==
-  LET refs == RefSeq(k.in, k.ns, 1, k.relaxed) IN
+AllSteps(k, Q(_, _, _), tag) ==
+  LET refs == RefSeq(k.in, k.ns, 1, k.relaxed, Init0, Init0) IN
   \A r \in 1..Len(k.runs) : \A s \in 1..Len(k.runs[r].steps) :
      LET st == k.runs[r].steps[s] IN
-     /\ k.ns[st.k] = st.n
-     /\ st.outn <= Len(k.runs[r].out)
-     /\ Q(k.runs[r], st, refs[st.k])
+     \/ /\ k.ns[K(st)] = N(st)
+        /\ OutN(st) <= Len(k.runs[r].out)
+        /\ Q(k.runs[r], st, refs[K(st)])
+     \/ PrintT(<<tag, i, r, s>>) /\ FALSE          \* tells the check which round of which schedule was refused
 
-CaseOk == i > 0 => (~Case.ub /\ AllSteps(Case, StepP))
-ImplOk == i > 0 => AllSteps(Case, StepI)
+CaseOk == i > 0 => (~Case.ub /\ AllSteps(Case, StepP, "PFAIL"))
+ImplOk == i > 0 => AllSteps(Case, StepI, "IFAIL")
 ====
